@@ -152,6 +152,69 @@ def cron_creation_tables(ctx, rule, ct, vf):
                  skip=None)
 
 
+def trust_context_table(ctx, rule):
+    """security.create_context: with authentication enabled every trigger
+    gets a trust-scoped context of *its* project, whatever else the row
+    holds; the project-less admin context is only for deployments without
+    authentication."""
+    from mstatic.rules import dt
+    f = ctx.prog.func('mistral.services.security.create_context')
+    cfg = ctx.cfg(f)
+    t = dt.Table(ctx, f, [('CONF.pecan.auth_enable', (True, False)),
+                          ('trust_id', (None, 'OBJ')),
+                          ('project_id', (None, 'OBJ'))])
+    rets = [n for n in cfg.nodes if n.kind == 'stmt' and
+            isinstance(n.ast, ast.Return) and
+            isinstance(n.ast.value, ast.Call) and
+            U.call_name(n.ast.value) == 'MistralContext']
+    if len(rets) < 2:
+        raise AnalysisError('C17.R4: create_context no longer returns two '
+                            'MistralContext constructions')
+    scoped = [n for n in rets if U.kwarg(n.ast.value, 'is_trust_scoped')
+              is not None]
+    admin = [n for n in rets if n not in scoped]
+    for n in scoped:
+        c = n.ast.value
+        rule.check(norm(U.kwarg(c, 'project_id')) == 'project_id' and
+                   norm(U.kwarg(c, 'trust_id')) == 'trust_id' and
+                   U.kwarg(c, 'is_admin') is None,
+                   ctx.construct(f, extra='trust-scoped context'),
+                   'the trust-scoped context does not carry the given '
+                   'project and trust (or is an admin context)',
+                   ctx.loc(f, c))
+    if not scoped or not admin:
+        raise AnalysisError('C17.R4: create_context lost one of its two '
+                            'kinds of context')
+    for nodes, want, what, tag in (
+            (scoped, True, 'the trust-scoped context is returned',
+             'trust-scoped exactly when auth is enabled'),
+            (admin, False, 'the project-less admin context is returned',
+             'admin context only without auth')):
+        got = set()
+        for n in nodes:
+            got |= t.inputs_at(n)
+        exp = {v for v in t.init_inputs
+               if dict(zip(t.keys, v))['CONF.pecan.auth_enable'] is want}
+        extra, missing = sorted(got - exp, key=repr), \
+            sorted(exp - got, key=repr)
+        msg = ''
+        if extra:
+            msg += '%s although the property rules it out, e.g. for %s. ' \
+                % (what, dict(zip(t.keys, extra[0])))
+        if missing:
+            msg += '%s is not returned for %s.' % (
+                what, dict(zip(t.keys, missing[0])))
+        rule.check(not extra and not missing,
+                   ctx.construct(f, extra=tag), msg, ctx.loc(f, nodes[0].ast))
+    # the keystone client is asked for the given trust
+    kc = [c for _n, c in U.calls_in(cfg, 'client_for_trusts')]
+    rule.check(bool(kc) and all(c.args and norm(c.args[0]) == 'trust_id'
+                                for c in kc),
+               ctx.construct(f, extra='client for the trust'),
+               'the keystone client is not created for the given trust',
+               ctx.loc(f))
+
+
 def run(ctx):
     prog, sd = ctx.prog, ctx.sd
 
@@ -413,6 +476,7 @@ def run(ctx):
             sc[0].ast, 200), ctx.construct(pc, extra='security context'),
             'the workflow is not started under a context created from the '
             'trigger\'s trust and project', ctx.loc(pc, c))
+    trust_context_table(ctx, r4)
     ct = prog.func(TRG + '.create_cron_trigger')
     ccfg = ctx.cfg(ct)
     v = U.calls_in(ccfg, 'validate_cron_trigger_input')
